@@ -41,7 +41,8 @@ IMPORTS = {
             ("c06", ["R06.1", "R06.2", "R06.3"], "a panic or a hang is not an error report")],
     "C08": [("c06", ["R06.1"], "a panic on a nested call is not an accepted call"),
             ("c07", ["R07.1", "R07.6"], "the parentheses the comma step adds go through the same balance check")],
-    "C09": [("c04", NAMES, "same variable list, re-indexed by name")],
+    "C09": [("c04", NAMES, "same variable list, re-indexed by name"),
+            ("c03", CONV, "a flat expression is differentiated through the deep form and back: the converters must keep the list")],
     "C10": [("c03", CONV, "operators are applied to flat expressions through the deep form and back"),
             ("c04", NAMES, "the result lists the union of the names and re-indexes both operands"),
             ("c06", ["R06.1"], "a panic in the application machinery is not a result")],
@@ -59,7 +60,7 @@ IMPORTS = {
     "C15": [("c04", ["R04.1"], "both evaluation styles check the arity before any value is used")],
     "C16": [("c17", None, "an operator that panics has no result kind"),
             ("c01", ORDER, "operands are only regrouped inside a chain of one commutative operator")],
-    "C17": [("c16", ["R16.3"], "unchecked integer arithmetic panics in debug builds"),
+    "C17": [("c16", None, "wrong operand kinds, overflow and invalid casts have to come out as the documented error value (kind table), never wrapped"),
             ("c06", ["R06.5"], "an iteration whose length is an operand value has to be able to stop")],
     "C18": [("c05", ["R05.4", "R05.5", "R05.6"], "the value-typed derivative runs through the same driver and table lookup"),
             ("c16", ["R16.2", "R16.6"], "the piecewise operators the rules emit have to mean what the rules assume")],
